@@ -216,6 +216,15 @@ var violations = []violation{
 	{"coinOverflow", func(t *coin.Transaction, r *Rng) {
 		t.Out = append(t.Out, coin.TransactionOutput{Coins: 1 << 63, Hours: 1}, coin.TransactionOutput{Coins: 1<<63 + uint64(r.Intn(3)), Hours: 2})
 	}},
+	{"coinOverflowMid", func(t *coin.Transaction, r *Rng) { // the 64-bit sum wraps at a NON-final addition
+		pre := []coin.TransactionOutput{{Coins: 1 << 63, Hours: 1}, {Coins: 1<<63 + uint64(r.Intn(3)), Hours: 2}}
+		pre[0].Address.Key[0], pre[1].Address.Key[0] = 0x51, 0x52
+		k := r.Intn(len(t.Out) + 1)
+		t.Out = append(append(append([]coin.TransactionOutput{}, t.Out[:k]...), pre...), t.Out[k:]...)
+		if k == len(t.Out)-2 { // keep at least one addition after the wrap
+			t.Out = append(t.Out, coin.TransactionOutput{Coins: 1000, Hours: 4})
+		}
+	}},
 	{"coinSumMax", func(t *coin.Transaction, r *Rng) { // exactly 2^64-1: no overflow
 		var s uint64
 		for _, o := range t.Out {
